@@ -8,7 +8,8 @@
 (* of the case space are also compared with the code-shaped transcription  *)
 (* (repaired variant, else the originally pinned one; every case is        *)
 (* touched by at most one of the three flags): a difference is impl drift, *)
-(* never a violation.                                                      *)
+(* never a violation.  The same holds for the documents tocimxmlstr()      *)
+(* returns for the object cases (shape.op = "#obj": tree only).            *)
 (***************************************************************************)
 EXTENDS WireOpsImplOps, Json, IOUtils
 
@@ -18,13 +19,14 @@ RECURSIVE PathStr(_)
 PathStr(p) == IF Len(p) = 0 THEN "" ELSE "/" \o p[1] \o PathStr(Tail(p))
 
 DriftOf(e, V) ==
-  LET r == ImplReq(e.shape, V) IN
+  LET r == DocOf(e.shape, V) IN
   IF r.emit # e.emitted THEN {"emitted"}
   ELSE IF ~r.emit THEN {}
   ELSE IF ~e.wf THEN {"tree:not-well-formed"}
   ELSE (IF SameTree(e.tree, r.tree) THEN {}
         ELSE {"tree:" \o PathStr(DiffPath(e.tree, r.tree))})
-       \cup (IF /\ e.hdr.mhas /\ e.hdr.mok /\ e.hdr.method = r.hdr.method
+       \cup (IF IsObjCase(e.shape) THEN {} ELSE
+             IF /\ e.hdr.mhas /\ e.hdr.mok /\ e.hdr.method = r.hdr.method
                 /\ (r.hdr.form = "none" \/
                     (r.hdr.form = "unparsable" /\ e.hdr.form = "unparsable") \/
                       (/\ e.hdr.ohas /\ e.hdr.ook /\ e.hdr.form = r.hdr.form
